@@ -273,7 +273,28 @@ impl Sim {
                 let waker = Waker::from(Arc::new(TaskWaker { id, sh: self.0.clone() }));
                 let mut cx = Context::from_waker(&waker);
                 self.with(|s| s.metas[id].polls += 1);
-                let r = fut.as_mut().poll(&mut cx);
+                // A panic inside quinn (say, a debug assertion in the connection driver) poisons
+                // quinn's own mutex: dropping the other tasks would then panic again in their
+                // destructors and abort the process. Catch it here, report it, and leak the
+                // world instead of unwinding through it.
+                let r = match std::panic::catch_unwind(std::panic::AssertUnwindSafe(|| fut.as_mut().poll(&mut cx))) {
+                    Ok(r) => r,
+                    Err(_) => {
+                        let msg = crate::runner::take_last_panic().unwrap_or_else(|| "panic".into());
+                        let name = self.with(|s| s.metas[id].name.clone());
+                        let loc = msg.rsplit(" at ").next().unwrap_or("").to_string();
+                        self.violate(&format!("panic at {}", loc), format!("task {} panicked: {}", name, msg));
+                        for t in tasks.drain(..) {
+                            std::mem::forget(t);
+                        }
+                        self.with(|s| {
+                            for (_, _, f) in s.spawn_q.drain(..) {
+                                std::mem::forget(f);
+                            }
+                        });
+                        return true;
+                    }
+                };
                 if r.is_ready() {
                     tasks[id] = None;
                     self.with(|s| {
